@@ -77,6 +77,12 @@ CHECKS.update({
                 design="4/C16, 2.6", note=BASE_NOTE + " MPilot-style commands inside EEMS 2.0 files are generated without NewFieldName/OutFileName."),
 })
 
+CHECKS.update({
+    "C19": dict(engine="registry", technique="TLC: HistoryIndependent on MPRegistry.tla over all histories of registry operations (exhaustive length 2, simulated length 3); every history replayed in a freshly forked process and validated by TLC (MPRegistryTrace.tla) against Ideal(libraries)",
+                text="TLC explores histories of module imports, run-time class definitions and Program constructions over prefix-related, nested, same-name and built-in CSV/NetCDF libraries and checks that every program's table equals Ideal(libraries) computed from the requested libraries and the static module contents alone (duplicates fail); the pinned string-prefix rule is refuted by a negative config. Every history is replayed on the real process-global registry in a fresh process and its tables validated by TLC.",
+                design="4/C19, 2.5", note=BASE_NOTE + " Synthetic libraries live in probe_libs/ (vlib_a, vlib_a.sub, vlib_ab, vlib_c)."),
+})
+
 NOT_YET = "check not built yet (build in progress; see DESIGN.md section 4b build order)"
 
 
@@ -119,6 +125,7 @@ def main():
              "kind_free_text": "TLC (spec/MPSyntaxDefs.tla, MPSyntax.tla, MPSyntaxTrace.tla, MPLex.tla, MPLexTrace.tla, MPParserObj.tla, MPParserObjTrace.tla) + renderer/concretiser + real parser"},
             {"name": "serial", "path": "harness/serial.py", "serves_properties": ["C15"], "kind_free_text": "TLC (spec/MPSerialize.tla, MPSerializeTrace.tla) + to_string/from_source driver"},
             {"name": "eems2", "path": "harness/eems2.py", "serves_properties": ["C16"], "kind_free_text": "TLC (spec/MPEems2.tla, MPEems2Trace.tla; MC_Eems2/MC_Decl generated) + loader driver"},
+            {"name": "registry", "path": "harness/registry.py", "serves_properties": ["C19"], "kind_free_text": "TLC (spec/MPRegistry.tla, MPRegistryTrace.tla) + forked replay children"},
             {"name": "validate", "path": "harness/validate.py", "serves_properties": ["C12", "C13"],
              "kind_free_text": "TLC (spec/MPValidateDefs.tla, MPValidate.tla, MPValidateTrace.tla, MPCli.tla, MPCliTrace.tla; MC_Decl generated by harness/decl.py) + renderer/runner"},
         ],
